@@ -122,9 +122,32 @@ def nontrivial_key(beh):
     return nt, summarize(beh)
 
 
+def explore(inst, seed, tier):
+    """Run one model instance (retrying with more primes when magnitudes need them). Returns (behaviours, stats)."""
+    with open(os.path.join(tlcrun.SPEC_DIR, inst["cfg"])) as f:
+        cfg_text = f.read()
+    sim = None
+    if inst.get("simulate"):
+        sim = dict(inst["simulate"])
+        sim["seed"] = seed + 1
+    err = None
+    for nprimes in (inst.get("nprimes", 8), 14, 20):
+        try:
+            return tlcrun.run_model(inst["module"], cfg_text, nprimes=nprimes,
+                                    timeout=inst.get("timeout", 1200 if tier == "quick" else 7200), simulate=sim,
+                                    extra_consts=inst.get("consts"))
+        except decode.DecodeError as e:   # magnitudes need more primes: rerun the same model with more
+            err = e
+            continue
+    raise err
+
+
 def run_check(prop, tier, seed):
     from harness import replay  # imports jax + the library under test from /repo
     spec = PROPS[prop]
+    if spec.get("runner") == "c18":
+        from harness import c18
+        return c18.run(prop, tier, seed)
     known = load_known()
     t0 = time.time()
     insts = spec[tier] if tier in spec else spec["quick"]
@@ -181,7 +204,12 @@ def run_check(prop, tier, seed):
                 else:
                     m0, b0, c = mismatches[sig]
                     mismatches[sig] = (m0, b0, c + 1)
-    # triage
+    return finalize(prop, tier, seed, t0, spec, insts, all_stats, mismatches, n_replayed, samples, nontrivial, acts,
+                    rp.counters, rp.calls, known)
+
+
+def finalize(prop, tier, seed, t0, spec, insts, all_stats, mismatches, n_replayed, samples, nontrivial, acts, counters, calls,
+             known, extra_cov=None):
     violations = 0
     known_hits = {}
     for sig, (mm, b, count) in mismatches.items():
@@ -198,25 +226,27 @@ def run_check(prop, tier, seed):
         if prop in kf["property"] and kf["id"] in known_hits:
             print(f"KNOWN-FINDING: property={prop} {kf['id']} {kf['what']} ({known_hits[kf['id']]} behaviours)")
     wall = time.time() - t0
+    cov = {
+        "states": sum(s["distinct"] or 0 for s in all_stats),
+        "transitions": sum(s["states"] or 0 for s in all_stats),
+        "traces_validated_against_impl": n_replayed,
+        "samples": samples,
+        "evaluations": calls,
+        "distinct_nontrivial": len(nontrivial),
+        "rule": "one evaluation = one public library call replayed from a TLC behaviour; a behaviour is non-trivial "
+                "if some object in it has more than one component or dimension > 1; distinct = distinct sequence of "
+                "(action, plain arguments)",
+        "exhaustive": all(not i.get("simulate") for i in insts),
+        "instances": all_stats,
+        "actions": acts,
+        "counters": counters,
+        "known_findings_hit": known_hits,
+        "explanation": spec.get("explanation", ""),
+    }
+    cov.update(extra_cov or {})
     ev = {
         "property_id": prop, "tier": tier, "seed": seed, "level": "model_checking",
-        "coverage": {
-            "states": sum(s["distinct"] or 0 for s in all_stats),
-            "transitions": sum(s["states"] or 0 for s in all_stats),
-            "traces_validated_against_impl": n_replayed,
-            "samples": samples,
-            "evaluations": rp.calls,
-            "distinct_nontrivial": len(nontrivial),
-            "rule": "one evaluation = one public library call replayed from a TLC behaviour; a behaviour is non-trivial "
-                    "if some object in it has more than one component or dimension > 1; distinct = distinct sequence of "
-                    "(action, plain arguments)",
-            "exhaustive": all(not i.get("simulate") for i in insts),
-            "instances": all_stats,
-            "actions": acts,
-            "counters": rp.counters,
-            "known_findings_hit": known_hits,
-            "explanation": spec.get("explanation", ""),
-        },
+        "coverage": cov,
         "assumptions": spec.get("assumptions", []) + [
             "Gaussian integral formula, Isserlis' theorem (axioms of the semantic layer)",
             "TLC evaluates TLA+ correctly; GF(p) arithmetic for the primes used; CRT/rational reconstruction (harness/decode.py)",
@@ -228,8 +258,8 @@ def run_check(prop, tier, seed):
     os.makedirs(os.path.join(VERIF, "evidence"), exist_ok=True)
     with open(os.path.join(VERIF, "evidence", f"{prop}.json"), "w") as f:
         json.dump(ev, f, indent=1)
-    print(f"{prop} {tier}: {n_replayed} behaviours replayed ({rp.calls} calls), "
-          f"{sum(s['distinct'] or 0 for s in all_stats)} TLC states, {violations} violations, "
+    print(f"{prop} {tier}: {n_replayed} behaviours replayed ({calls} calls), "
+          f"{cov['states']} TLC states, {violations} violations, "
           f"{sum(known_hits.values())} known-finding hits, {wall:.1f}s")
     return 1 if violations else 0
 
